@@ -220,6 +220,15 @@ impl<T: Elem> USet for W64<T> {
                     "max" => it.max().map(|x| x.to_raw()),
                     "last" => it.last().map(|x| x.to_raw()),
                     "count" => Some(it.count() as u64),
+                    "nth" => it.nth(2).map(|x| x.to_raw()),
+                    "fold" => Some(it.fold(0u64, |a, x| a.wrapping_mul(31).wrapping_add(x.to_raw()))),
+                    "skip" => it.skip(1).last().map(|x| x.to_raw()),
+                    "step" => Some(it.step_by(2).count() as u64),
+                    "find" => it.find(|x| x.to_raw() & 1 == 1).map(|x| x.to_raw()),
+                    "byref" => {
+                        let a = it.by_ref().take(2).count() as u64;
+                        Some(a * 1_000_000 + it.count() as u64)
+                    }
                     _ => {
                         let (lo, hi) = it.size_hint();
                         if hi == Some(lo) {
@@ -290,6 +299,15 @@ macro_rules! sc_u {
             "max" => it.max().map(|x| x as u64),
             "last" => it.last().map(|x| x as u64),
             "count" => Some(it.count() as u64),
+            "nth" => it.nth(2).map(|x| x as u64),
+            "fold" => Some(it.fold(0u64, |a, x| a.wrapping_mul(31).wrapping_add(x as u64))),
+            "skip" => it.skip(1).last().map(|x| x as u64),
+            "step" => Some(it.step_by(2).count() as u64),
+            "find" => it.find(|x| (*x as u64) & 1 == 1).map(|x| x as u64),
+            "byref" => {
+                let a = it.by_ref().take(2).count() as u64;
+                Some(a * 1_000_000 + it.count() as u64)
+            }
             _ => {
                 let (lo, hi) = it.size_hint();
                 if hi == Some(lo) {
